@@ -18,7 +18,7 @@ class C03(PipelineCheck):
             'distinct = distinct (program, resolved schedule) pairs among the non-trivial ones')
     assumptions = ['about one case in eight injects user-function failures (fault plan of C13) so that OnErrorMux crosses boundaries too; after on_error nothing is demanded',
                    'the class-level patch of MuxObservable.__init__ sees every multiplexed boundary']
-    probe_names = ('sources_sharing_one_store', 'cold_source_emitting_during_subscribe', 'with_item_errors', 'inside_tee', 'nested_window', 'empty_source', 'stride_gt_window', 'window_gt_stream',
+    probe_names = ('two_chained_store_scopes', 'sources_sharing_one_store', 'cold_source_emitting_during_subscribe', 'with_item_errors', 'inside_tee', 'nested_window', 'empty_source', 'stride_gt_window', 'window_gt_stream',
                    'group_emptied_by_filter', 'labels>=12')
 
     def flags(self):
@@ -54,13 +54,20 @@ class C03(PipelineCheck):
         ts = find_nodes(program, lambda n: n['op'] == 'time_split')
         to = (ts[0].get('active'), ts[0].get('inactive')) if ts else (None, None)
         events, style = gen_events(rng, parties, maxev, style=None, timeouts=to, p_close=0.2 if ts else 0.0)
-        return {'program': program, 'events': events, 'end': 'complete', 'style': style,
+        case = {'program': program, 'events': events, 'end': 'complete', 'style': style,
                 'driver': 'cold' if rng.random() < 0.15 else 'hot'}
+        if len(program) >= 2 and rng.random() < 0.15:
+            # the pipeline in two store scopes chained on one multiplexed stream
+            case['two_stores'] = rng.randrange(1, len(program))
+        return case
 
     def valid(self, case):
         if not PipelineCheck.valid(self, case):
             return False
         from rxsim.program import valid as _valid
+        k = case.get('two_stores')
+        if k is not None and not (isinstance(k, int) and 1 <= k < len(case['program'])):
+            return False
         return all(_valid(p, St('rec', True), self.flags()) for p in case.get('more_sources') or ())
 
     def execute_multi(self, case):
@@ -87,7 +94,10 @@ class C03(PipelineCheck):
             return self.execute_multi(case)
         out = Outcome()
         ctx, final, escaped = run_mux(case['program'], case['events'], case['end'], monitor=True, notaps=True,
-                                      fail=case.get('faults'), driver=case.get('driver', 'hot'))
+                                      fail=case.get('faults'), driver=case.get('driver', 'hot'),
+                                      extra={'two_stores': case.get('two_stores')} if case.get('two_stores') else None)
+        if case.get('two_stores'):
+            out.probes['two_chained_store_scopes'] += 1
         for site, n in ctx.fired.items():
             out.faults['user_function_raised'] += n
         for label, what, key, seq in ctx.breaches:
